@@ -167,3 +167,21 @@ Proof.
   destruct (dead_run v evs2 st2 i s' h4 h5 Hall) as (s3 & g1 & g2).
   exists s, s3. repeat split; auto.
 Qed.
+
+(* the end of an authenticated link ([vtd]): a frame that makes LCP leave Opened (marker GLcpDown, see
+   GateObs.lcp_down_marked) while the session is in Network/Open tears the session down in the same step *)
+Theorem link_end_teardown_step : forall v st i f s, vtd v = true ->
+  nth_error (sl st) i = Some s -> live s = true -> in_net (ph s) = true ->
+  In (i, GLcpDown) (snd (step v st (EvFrame i f))) ->
+  exists s', nth_error (sl (fst (step v st (EvFrame i f)))) i = Some s' /\ live s' = false /\ ph s' = PTerminate.
+Proof.
+  intros v st i f s Hv Hn Hl Hp Hin. cbn [step] in *. unfold on_slot in *. rewrite Hn in *. cbn [ms fst snd sl] in *.
+  rewrite Hl, Hv, Hp in *. cbn [andb] in *.
+  set (m1 := handle_frame v i f (mkM s (nreq st) (free st) (queue st) [])) in *.
+  destruct (existsb is_lcp_down (mo m1)) eqn:E.
+  - eexists. split; [apply (nth_set_nth_eq _ _ _ _ _ Hn)|].
+    destruct m1 as [s1 n1 f1 q1 o1]. destruct s1. cbn. destruct (in_net ph); cbn; auto.
+  - exfalso. unfold tag in Hin. apply in_map_iff in Hin. destruct Hin as (o & Ho & Io). inversion Ho; subst o.
+    rewrite <- in_rev in Io. assert (K : existsb is_lcp_down (mo m1) = true) by (apply existsb_exists; exists GLcpDown; auto).
+    congruence.
+Qed.
